@@ -298,7 +298,19 @@ def r_c07(p):
     return c07.replay_c07(p)
 
 
+def r_c13(p):
+    from . import c13
+    return c13.replay_c13(p)
+
+
+def r_c14(p):
+    from . import c14
+    return c14.replay_c14(p)
+
+
 REPLAYERS = {
+    'c14': r_c14,
+    'c13': r_c13,
     'c07': r_c07,
     'c20': r_c20,
     'c19': r_c19,
